@@ -106,7 +106,7 @@ def collect(run, results, mine, w_args, menu_fn, ignore=(), part=None):
     for recs, st, nmenu in results:
         if isinstance(recs, str) and recs == "ALIAS":
             run.oblige(False)
-            run.fail("distinct identifiers are stored at the same address :: %s" % (st[0][0][0],),
+            run.fail("distinct identifiers are stored at the same address :: %s" % (st[0][0][0] if st and st[0] else "?",),
                      dict(aliasing=st), dict(harness="alias", what=st, clauses=["alias"]))
             continue
         if isinstance(recs, str) and recs == "LEARN":
@@ -128,7 +128,7 @@ def collect(run, results, mine, w_args, menu_fn, ignore=(), part=None):
             if failed:
                 clauses = sorted(set(b[0] if len(b) < 2 or not isinstance(b[1], str) or not b[1]
                                      else "%s(%s)" % (b[0], b[1]) for b in failed))
-                sig = signature(r, "+".join(clauses))
+                sig = signature(r, "+".join(clauses)) + ((" [universe: %s]" % part) if part else "")
                 run.fail(sig, dict(call=r["call"], result=r["res"], error=r["err"], failing=r["bad"],
                                    pre_state=r.get("vals")),
                          dict(harness="step", vals=r.get("vals"), clauses=sorted(set(b[0] for b in failed)),
